@@ -42,11 +42,23 @@ def sequences(max_steps, max_others):
 
 
 def pvec(sim):
+    """coordinates of all particles; variational particles as the derivative they stand for (stored value x exp(lrescale)):
+    safe mode rescales a variation that passes 1e100, while the deferred modes refuse to (documented, with a warning)"""
     n = sim.N
+    scale = [1.0] * n
+    nreal = n - sim.N_var
+    for k in range(sim.N_var_config):
+        vc = sim.var_config[k]
+        lr = vc._lrescale
+        if lr > 0:
+            cnt = 1 if vc.testparticle >= 0 else nreal
+            for i in range(vc.index, vc.index + cnt):
+                scale[i] = math.exp(min(lr, 600.0))
     out = []
     for i in range(n):
         p = sim._particles[i]
-        out.append((p.x, p.y, p.z, p.vx, p.vy, p.vz))
+        f = scale[i]
+        out.append((p.x * f, p.y * f, p.z * f, p.vx * f, p.vy * f, p.vz * f))
     return out
 
 
@@ -260,7 +272,11 @@ def run(ctx):
         maxr2 = max(maxr2, obs["max_round_corr2"])
         for sig, what in V:
             ctx.violation(sig, what, {"cfg": cfg, "seqs": sq})
+    # WHFast512 exists only in the AVX512 build: its part runs in a process of its own (mc/w512.py)
+    from .. import w512
+    n_w512 = w512.run(ctx, "C09")
     cov = {
+        "whfast512_cases": n_w512,
         "states": runs, "transitions": runs * 3, "traces_validated_against_impl": runs,
         "samples": [{"cfg": cfgs[0], "sequences": seqs[:12]}, {"cfg": cfgs[-1], "sequences": seqs[-5:]}],
         "configs": len(cfgs), "sequences_per_config_and_mode": len(seqs), "max_steps": 4, "max_interposed": 2 if ctx.tier == "quick" else 3,
